@@ -5,3 +5,4 @@ import DafRel.Props.C11
 #print axioms DafRel.Props.C11.materialize_refuses_unsliced_sort
 #print axioms DafRel.Props.C11.emitted_select_honours_sort_and_slice
 #print axioms DafRel.Props.C11.sorted_slice_executes_in_order
+#print axioms DafRel.Props.C11.sorted_slice_executes_in_order_of_faithful_input
